@@ -97,6 +97,11 @@ def run_history(h, ctx, farmer=None):
                         p = os.path.join(loc, 'results', 'xyz-result-%d.jbdmp' % op['id'])
                         if os.path.exists(p):
                             with open(p, 'wb') as fh: fh.write(b'\x80garbage')
+                    elif k == 'strandtmp':
+                        # what a grower killed mid-write leaves behind: a private temporary next to the results
+                        os.makedirs(os.path.join(loc, 'results'), exist_ok=True)
+                        with open(os.path.join(loc, 'results', '.tmp-deadbeef-xyz-result-%d.jbdmp' % op['id']), 'wb') as fh:
+                            fh.write(b'\x80partial')
                     elif k == 'checkbad':
                         o = {'bad': sorted(int(x) for x in crop.check_bad())}
                     elif k == 'query':
